@@ -101,11 +101,14 @@ def load_one(lit: LineIterator) -> dict:
                     stacklevel=2,
                 )
             set_four_index_element(two_mo, ii, ik, ij, il, value)
-        elif words[1] != "0":
+        elif words[2] != "0":
             ii = int(words[1]) - 1
             ij = int(words[2]) - 1
             one_mo[ii, ij] = value
             one_mo[ij, ii] = value
+        elif words[1] != "0":
+            # An orbital energy (i 0 0 0), written by some programs. It is not an integral.
+            continue
         else:
             core_energy = value
 
